@@ -7,8 +7,6 @@
 // Output: "R <resolved history> ## V <hash of the cluster view> ## PH <phases> ## OBS <per proxy runs> ## MON <monitor>"
 use crate::net::*;
 use crate::store::*;
-use futures::stream::FuturesUnordered;
-use futures::StreamExt;
 use std::collections::{BTreeMap, HashMap};
 use std::sync::atomic::{AtomicUsize, Ordering};
 use std::sync::Arc;
@@ -28,6 +26,19 @@ const SLOTS: usize = 16384;
 static ENQUEUED: AtomicUsize = AtomicUsize::new(0);
 static REDISPATCHED: AtomicUsize = AtomicUsize::new(0);
 static HANDED_OFF: AtomicUsize = AtomicUsize::new(0);
+static TRY_RECV: AtomicUsize = AtomicUsize::new(0);
+// commands issued by the harness in the current case (probes of every proxy, sentinels) that have not been answered yet;
+// each of them is parked in a blocking queue or in flight, so OUTSTANDING >= parked_now(), with equality exactly when nothing is in flight
+static OUTSTANDING: AtomicUsize = AtomicUsize::new(0);
+// ENQUEUED - REDISPATCHED when the current case started (its own runtime: nothing of an earlier case is still running)
+static PARKED_BASE: AtomicUsize = AtomicUsize::new(0);
+
+// commands of the current case that sit in some blocking queue right now
+fn parked_now() -> usize {
+    let out = REDISPATCHED.load(Ordering::SeqCst); // first: a command is counted out only after it was counted in
+    let inn = ENQUEUED.load(Ordering::SeqCst);
+    inn.saturating_sub(out).saturating_sub(PARKED_BASE.load(Ordering::SeqCst))
+}
 
 fn install_hook() {
     use std::sync::OnceLock;
@@ -42,6 +53,9 @@ fn install_hook() {
             }
             "handoff" => {
                 HANDED_OFF.fetch_add(1, Ordering::SeqCst);
+            }
+            "try_recv" => {
+                TRY_RECV.fetch_add(1, Ordering::SeqCst);
             }
             _ => {}
         })));
@@ -209,72 +223,75 @@ fn err_word(s: &str) -> String {
 }
 
 // one GET per slot at proxy pid; a probe without reply when the others have been quiet for `idle` is parked in a blocking queue
-// one GET per slot at proxy pid.  Every probe ends up answered or parked in a blocking queue; the loop runs until
-//   answered + (enqueued - redispatched since the probes were issued) = number of probes,
-// so a probe is reported as parked (Q) only when the hook counted it into a blocking queue, however slow the machine is.
+// one GET per slot at proxy pid.  Every probe ends up answered or parked in a blocking queue; the loop runs until the number of
+// unanswered commands equals the number of commands the hook counted into (and not out of) the blocking queues,
+// so a probe is reported as parked (Q) only when it demonstrably sits in a blocking queue, however slow the machine is.
 // If neither a reply, nor a command reaching a fake node, nor a counter moved for stuck_limit() the unanswered probes are
 // reported as harness errors (never as Q).
 async fn probe_proxy(net: &Arc<Net>, pid: u64, h: &Handler, max_stall: &mut Duration) -> Vec<Obs> {
-    let mut replies: Vec<Option<RespVec>> = vec![None; SLOTS];
-    let enq0 = ENQUEUED.load(Ordering::SeqCst);
-    let red0 = REDISPATCHED.load(Ordering::SeqCst);
-    let mut futs = FuturesUnordered::new();
+    let table: Arc<parking_lot::Mutex<Vec<Option<RespVec>>>> = Arc::new(parking_lot::Mutex::new(vec![None; SLOTS]));
+    OUTSTANDING.fetch_add(SLOTS, Ordering::SeqCst);
     for s in 0..SLOTS {
         let key = probe_key(s, pid);
         let h = h.clone();
-        futs.push(async move { (s, send_cmd(&h, vec![b"GET".to_vec(), key]).await) });
+        let table = table.clone();
+        tokio::spawn(async move {
+            let r = send_cmd(&h, vec![b"GET".to_vec(), key]).await;
+            let r = r.unwrap_or_else(|| Resp::Error(b"harness: canceled".to_vec()));
+            {
+                let mut t = table.lock();
+                t[s] = Some(r);
+            }
+            OUTSTANDING.fetch_sub(1, Ordering::SeqCst);
+        });
     }
-    let tick = Duration::from_millis(50);
+    let tick = Duration::from_millis(10);
     let limit = stuck_limit();
     let mut quiet = Duration::from_millis(0);
-    let mut last_log = net.log.lock().len();
-    let mut last_cnt = (enq0, red0);
-    let mut ndone = 0usize;
-    let mut stuck = false;
-    let parked = || {
-        (ENQUEUED.load(Ordering::SeqCst) - enq0).saturating_sub(REDISPATCHED.load(Ordering::SeqCst) - red0)
+    let snapshot = |net: &Arc<Net>| {
+        (net.log.lock().len(), OUTSTANDING.load(Ordering::SeqCst), ENQUEUED.load(Ordering::SeqCst), REDISPATCHED.load(Ordering::SeqCst))
     };
+    let mut last = snapshot(net);
+    let mut stuck = false;
+    let counters = || {
+        (OUTSTANDING.load(Ordering::SeqCst), ENQUEUED.load(Ordering::SeqCst), REDISPATCHED.load(Ordering::SeqCst), TRY_RECV.load(Ordering::SeqCst))
+    };
+    let mut settled_at: Option<(usize, usize, usize, usize)> = None;
     loop {
-        if ndone + parked() >= SLOTS {
-            break;
-        }
-        match tokio::time::timeout(tick, futs.next()).await {
-            Ok(Some((s, r))) => {
-                replies[s] = Some(r.unwrap_or_else(|| Resp::Error(b"harness: canceled".to_vec())));
-                if quiet > *max_stall {
-                    *max_stall = quiet;
-                }
-                quiet = Duration::from_millis(0);
-                ndone += 1;
+        // settled = every unanswered command is counted into a queue, at two readings a tick apart between which no queue was touched
+        // (a release_all in progress shows as a moving try_recv / redispatch counter)
+        let c = counters();
+        if c.0 == parked_now() && counters() == c {
+            if settled_at == Some(c) {
+                break;
             }
-            Ok(None) => break,
-            Err(_) => {
-                let n = net.log.lock().len();
-                let cnt = (ENQUEUED.load(Ordering::SeqCst), REDISPATCHED.load(Ordering::SeqCst));
-                if n != last_log || cnt != last_cnt {
-                    last_log = n;
-                    last_cnt = cnt;
-                    if quiet > *max_stall {
-                        *max_stall = quiet;
-                    }
-                    quiet = Duration::from_millis(0);
-                } else {
-                    quiet += tick;
-                    if quiet >= limit {
-                        stuck = true;
-                        break;
-                    }
-                }
+            settled_at = Some(c);
+        } else {
+            settled_at = None;
+        }
+        tokio::time::sleep(tick).await;
+        let now = snapshot(net);
+        if now != last {
+            last = now;
+            if quiet > *max_stall {
+                *max_stall = quiet;
+            }
+            quiet = Duration::from_millis(0);
+        } else {
+            quiet += tick;
+            if quiet >= limit {
+                stuck = true;
+                break;
             }
         }
     }
-    let parked_now = parked();
-    drop(futs);
+    // unanswered probes are parked exactly when the counters account for every unanswered command of the case
+    let all_parked = !stuck;
+    let replies: Vec<Option<RespVec>> = table.lock().clone();
     if std::env::var("UM_ROUTE_DEBUG").is_ok() {
-        eprintln!("probe p{}: answered={} parked={} stuck={}", pid, ndone, parked_now, stuck);
+        eprintln!("probe p{}: answered={} outstanding={} parked={} stuck={}", pid, replies.iter().filter(|r| r.is_some()).count(),
+                  OUTSTANDING.load(Ordering::SeqCst), parked_now(), stuck);
     }
-    // unanswered probes are parked exactly when the counters account for all of them
-    let all_parked = !stuck && ndone + parked_now == SLOTS;
     // which node saw the GET of each probe key
     let mut seen: HashMap<Vec<u8>, Vec<u64>> = HashMap::new();
     {
@@ -547,7 +564,15 @@ pub fn run_case(rt: &tokio::runtime::Runtime, line: &str) -> String {
         None => vec![],
     };
 
-    let (ph, obs, note, max_stall) = rt.block_on(async {
+    // a runtime of its own for the case: when it is shut down nothing of the case (retry loops of pinned handshakes, parked
+    // commands) survives into the next case or disturbs the hook counters
+    let _ = rt;
+    let case_rt = tokio::runtime::Builder::new_multi_thread().worker_threads(2).enable_all().build().expect("runtime");
+    OUTSTANDING.store(0, Ordering::SeqCst);
+    PARKED_BASE.store(0, Ordering::SeqCst);
+    let base = parked_now();
+    PARKED_BASE.store(base, Ordering::SeqCst);
+    let (ph, obs, note, max_stall) = case_rt.block_on(async {
         // 2. real proxies
         let net = Net::new();
         let mut all: BTreeMap<u64, Handler> = BTreeMap::new();
@@ -634,8 +659,10 @@ pub fn run_case(rt: &tokio::runtime::Runtime, line: &str) -> String {
                     let key = format!("sent{}{{{}}}", k, slot_tags()[slot]).into_bytes();
                     k += 1;
                     let hh = h.clone();
+                    OUTSTANDING.fetch_add(1, Ordering::SeqCst);
                     tokio::spawn(async move {
                         let _ = send_cmd(&hh, vec![b"GET".to_vec(), key]).await;
+                        OUTSTANDING.fetch_sub(1, Ordering::SeqCst);
                     });
                     while ENQUEUED.load(Ordering::SeqCst) == e0 && HANDED_OFF.load(Ordering::SeqCst) == h0 && t.elapsed() < stuck_limit() {
                         tokio::time::sleep(Duration::from_millis(1)).await;
@@ -677,6 +704,7 @@ pub fn run_case(rt: &tokio::runtime::Runtime, line: &str) -> String {
         net.handlers.lock().clear();
         (ph, obs, note, max_stall)
     });
+    case_rt.shutdown_timeout(Duration::from_secs(20));
 
     let obs_s = obs
         .iter()
